@@ -1021,6 +1021,9 @@ def correspond_inverse(seed=1, quick=True):
     # and the theorem C02f_image_canonical against the C: no clause violated => the C's tree satisfies root_canon.
     ko, _ = common.run_lines(D, ["K " + ev for _, _, ev, _ in sources], shards=min(common.NPROC, max(1, len(sources) // 8)))
     canon_of = {b: (o is not None and o.startswith("EVS 1")) for b, o in zip(bodies, mo)}
+    emb_bodies = [b for b in bodies if " R " in (" " + b)]
+    wo, _ = common.run_lines(D, ["W " + b for b in emb_bodies], shards=1)
+    canon_all_of = {b: (o is not None and o.startswith("W 1")) for b, o in zip(emb_bodies, wo)}
     src = {"accepted_documents": len(sources), "evs_canon": 0, "evs_canon_modulo_embedded": 0, "excluded_by_clause": {},
            "excluded_by_kind": {}, "canon_by_kind": {}, "excluded_documents": [], "clause_fired_but_tree_canonical": 0,
            "with_added_cdata": 0, "with_embedded": 0}
@@ -1035,6 +1038,9 @@ def correspond_inverse(seed=1, quick=True):
             src["with_embedded"] += 1
         if k_all == 0:
             src["evs_canon_modulo_embedded"] += 1
+            if has_emb and not canon_all_of.get(b, False):
+                disagreements.append({"kind": "image-canonical-embedded:" + k, "doc_hex": d.hex()[:2000], "events": ev[:1500], "c": b[:1500], "model": o,
+                                      "what": "no clause of evs_canon (every embedded tree accepted) is violated but the C's tree does not satisfy root_canon"})
         if k_none == 0:
             src["evs_canon"] += 1
             src["canon_by_kind"][kk] = src["canon_by_kind"].get(kk, 0) + 1
